@@ -220,7 +220,7 @@ func (s *State) heapGet(name, sort string) string {
 		return t
 	}
 	var c string
-	if s.hvAll {
+	if s.hvAll && !s.eng.immutableArray(name) {
 		c = s.eng.fresh(name+"@h", sort)
 		s.eng.typingAxiom(c, name, s.allocPtr())
 	} else {
